@@ -335,8 +335,19 @@ def declare(spec):
              "self.number_interrupted_individuals == old(self.number_interrupted_individuals) - 1 and self.number_in_service == old(self.number_in_service) + 1"),
             ("C07:unblocked-customer-leaves-the-blocked-queue",
              "implies(old(self.interrupted_individuals[0].is_blocked), not old(self.interrupted_individuals[0]).is_blocked)"),
+            ("C03+C07:exactly-its-own-entry-leaves-the-blocked-queue-of-its-destination",
+             "implies(old(self.interrupted_individuals[0].is_blocked), "
+             "S(old(as_obj(self.simulation.nodes[self.interrupted_individuals[0].destination], 'Node')).blocked_queue) == "
+             "remove1(old(S(as_obj(self.simulation.nodes[self.interrupted_individuals[0].destination], 'Node').blocked_queue)), "
+             "(self.id_number, old(self.interrupted_individuals[0]).id_number)))"),
+            ("C07+C14:the-destination's-blocked-counter-follows-its-queue",
+             "implies(old(self.interrupted_individuals[0].is_blocked), "
+             "old(as_obj(self.simulation.nodes[self.interrupted_individuals[0].destination], 'Node')).len_blocked_queue == "
+             "old(as_obj(self.simulation.nodes[self.interrupted_individuals[0].destination], 'Node').len_blocked_queue) - 1)"),
+            ("C07:a-customer-that-was-not-blocked-touches-no-blocked-queue",
+             "implies(not old(self.interrupted_individuals[0].is_blocked), same('len_blocked_queue'))"),
         ],
-        props=["C02", "C05", "C11", "C12"])
+        props=["C02", "C03", "C05", "C07", "C11", "C12", "C14"])
 
     # ---- starting the next service when a server is freed (release) ---------------------------------------------
     add(spec, "Node.begin_service_if_possible_release",
@@ -372,21 +383,34 @@ def declare(spec):
         ],
         props=["C02", "C04", "C05", "C08", "C10", "C12"])
 
-    # ---- priority pre-emption decision -------------------------------------------------------------------------
-    add(spec, "Node.decide_preempt",
-        types={"individual": IND},
-        cases=[
-            dict(name="off", when="self.priority_preempt is False", modifies=[], ensures=[]),
-            dict(name="on", when="not (self.priority_preempt is False)", modifies=["*"], ensures=["same('c', 'slotted', 'priority_preempt')"]),
-        ],
-        assumed=True, note="placeholder until preempt is under contract (C11): the 'off' case is exact, the 'on' case says nothing",
-        props=["C11"])
-
+    # ---- priority pre-emption decision: contracts/c_preempt.py
     M["wc"] = ("lambda n: isinf(n.c) or forall_in(n.servers, lambda s: s.busy) or "
                "forall_obj('Individual', lambda i: implies(ref_eq(loc(i), n), i.server), trigger=lambda i: loc(i))")
     M["wc_except"] = ("lambda n, x: isinf(n.c) or forall_in(n.servers, lambda s: s.busy) or "
                       "forall_obj('Individual', lambda i: implies(ref_eq(loc(i), n) and not ref_eq(i, x), i.server), trigger=lambda i: loc(i))")
 
+    # I-SRV for pre-emptive nodes: a busy server serves a customer who is in service here (and, scope of C11, not blocked)
+    M["servers_serving_ok"] = ("lambda n: forall_in(n.servers, lambda s: implies(s.busy, is_obj(s.cust, 'Individual') "
+                               "and in_service_here(n, as_obj(s.cust, 'Individual')) and ref_eq(as_obj(s.cust, 'Individual').server, s) "
+                               "and prio_ok(n, as_obj(s.cust, 'Individual')) and prev_prio_ok(n, as_obj(s.cust, 'Individual')) "
+                               "and as_obj(s.cust, 'Individual') in n.individuals[as_obj(s.cust, 'Individual').prev_priority_class] "
+                               "and float_dates(as_obj(s.cust, 'Individual')) and counted_class(as_obj(s.cust, 'Individual')) == as_obj(s.cust, 'Individual').previous_class "
+                               "and (s.shift_end is False or is_fin(s.shift_end))))")
+    M["no_inversion"] = ("lambda n: forall_obj('Individual', lambda i: implies(ref_eq(loc(i), n) and not i.server, "
+                         "forall_in(n.servers, lambda s: implies(s.busy, as_obj(s.cust, 'Individual').priority_class <= i.priority_class))), trigger=lambda i: loc(i))")
+    M["no_inversion_except"] = ("lambda n, x: forall_obj('Individual', lambda i: implies(ref_eq(loc(i), n) and not i.server and not ref_eq(i, x), "
+                                "forall_in(n.servers, lambda s: implies(s.busy, as_obj(s.cust, 'Individual').priority_class <= i.priority_class))), trigger=lambda i: loc(i))")
+    PREEMPT_REQ = [INV("self.priority_preempt == 'resume' or self.priority_preempt == 'restart' or self.priority_preempt == 'resample' or self.priority_preempt == 'reroute'"),
+                   INV("implies(self.slotted, self.c == 0)"), INV("len(self.servers) >= self.c"), INV("servers_serving_ok(self)"),
+                   INV("forall_obj('Individual', lambda i: implies(ref_eq(loc(i), self) and not i.server, cls_ok(self, i)), trigger=lambda i: loc(i))"),
+                   INV("filed_by_priority(self)"), INV("waiting_filed_ok(self)")]
+    # I-POP backward for waiting customers: whoever waits here is filed in the line of its priority class
+    M["waiting_filed_ok"] = ("lambda n: forall_obj('Individual', lambda i: implies(ref_eq(loc(i), n) and not i.server, "
+                             "0 <= i.priority_class and i.priority_class < len(n.individuals) and "
+                             "exists_int(lambda k: 0 <= k and k < len(n.individuals[i.priority_class]) and ref_eq(n.individuals[i.priority_class][k], i))), trigger=lambda i: loc(i))")
+    # I-FILE: the customers of line p have priority class p
+    M["filed_by_priority"] = ("lambda n: forall_int(lambda p: implies(0 <= p and p < len(n.individuals), forall_in(n.individuals[p], lambda i: i.priority_class == p)), "
+                              "trigger=lambda p: n.individuals[p])")
     BSIPA_REQ = [INV("shape(self)"), INV("net_ok(self)"), INV("float_clock(self)"), INV("has_servers(self)"), INV("dyn_ok(self)"),
                  "cls_ok(self, next_individual)", "ref_eq(loc(next_individual), self)", "not next_individual.server",
                  "prio_ok(self, next_individual)", "next_individual in self.individuals[next_individual.priority_class]",
@@ -419,7 +443,21 @@ def declare(spec):
                       "and ref_eq(as_obj(i.server, 'Server').cust, i) and as_obj(i.server, 'Server').busy "
                       "and as_obj(i.server, 'Server').next_end_service_date == i.service_end_date), trigger=lambda i: loc(i)))"),
                  ]),
-            dict(name="preempt", when="not (self.priority_preempt is False or isinf(self.c))", modifies=["*"], ensures=[]),
+            # pre-emptive priorities (C11).  Scope of the property: nobody at the node is blocked (servers_serving_ok).
+            dict(name="preempt-requeue", when="not (self.priority_preempt is False or isinf(self.c)) and self.priority_preempt != 'reroute'",
+                 requires=PREEMPT_REQ,
+                 modifies=[f + AT_SELF for f in START_FIELDS + ["time_left", "original_service_time"]] + ["$seq[Records]"] +
+                          [f + "@S(self.servers)" for f in ATTACH_FIELDS + ["busy_time", "total_time"]] +
+                          ["number_in_service@self", "next_class_change_date@self", "next_class_change_ind@self"],
+                 ensures=[
+                     ("C02+C13:arrival-stamped-now", "next_individual.arrival_date == self.now"),
+                     ("C13:patience-sampled-at-arrival",
+                      "implies(self.reneging is True, has(next_individual, 'reneging_date') and next_individual.reneging_date >= self.now)"),
+                     ("C04:at-most-one-more-in-service",
+                      "self.number_in_service == old(self.number_in_service) or self.number_in_service == old(self.number_in_service) + 1"),
+                 ]),
+            dict(name="preempt-reroute", when="not (self.priority_preempt is False or isinf(self.c)) and self.priority_preempt == 'reroute'",
+                 requires=PREEMPT_REQ, modifies=["*"], ensures=[]),
         ],
         props=["C02", "C04", "C05", "C08", "C10", "C11", "C13"])
 
@@ -427,6 +465,8 @@ def declare(spec):
     ACCEPT_REQ = [INV("shape(self)"), INV("net_ok(self)"), INV("float_clock(self)"), INV("has_servers(self)"), INV("dyn_ok(self)"), INV("pop_fwd(self)"),
                   "prio_ok(self, next_individual)", "cls_ok(self, next_individual)",
                   ("C01:customer-is-nowhere", "loc(next_individual) is None"),
+                  ("C10:arrives-with-a-clean-slate-so-a-fresh-service-time-is-sampled-here",
+                   "next_individual.service_time is False and next_individual.service_start_date is False and next_individual.service_end_date is False"),
                   "not next_individual.server", INV("all_waiting_ok(self)"),
                   INV("implies(self.dynamic_classes, forall_in(self.individuals, lambda q: forall_in(q, lambda i: has(i, 'class_change_date'))))")]
     add(spec, "Node.accept",
@@ -463,7 +503,7 @@ def declare(spec):
                      ("C17:announced-to-the-tracker-under-the-class-its-records-and-later-tracker-calls-will-name",
                       "counted_class(next_individual) == next_individual.customer_class and next_individual.previous_class == next_individual.customer_class"),
                  ]),
-            dict(name="preempt", when="not (self.priority_preempt is False or isinf(self.c))", modifies=["*"], ensures=[]),
+            dict(name="preempt", when="not (self.priority_preempt is False or isinf(self.c))", requires=PREEMPT_REQ, modifies=["*"], ensures=[]),
         ],
         props=["C01", "C02", "C03", "C05", "C06", "C07", "C13", "C14", "C17"])
 
@@ -504,6 +544,8 @@ def declare(spec):
             ("C09:in-service-counter-decremented", "self.number_in_service >= old(self.number_in_service) - 1 and self.number_in_service <= old(self.number_in_service)"),
             ("C01:customer-is-nowhere-between-release-and-accept", "loc(next_individual) is None"),
             ("C04:server-given-up", "not next_individual.server"),
+            ("C10:the-customer-moves-on-with-a-clean-slate",
+             "next_individual.service_time is False and next_individual.service_start_date is False and next_individual.service_end_date is False"),
             ("C03+C02:service-record-written-once-with-the-fixed-destination",
              "implies(not reroute, len(next_individual.data_records) == old(len(next_individual.data_records)) + 1 "
              "and next_individual.data_records[len(next_individual.data_records) - 1].node == self.id_number "
@@ -632,6 +674,9 @@ def declare(spec):
             ("C03:renege-record-names-the-node-the-customer-goes-to",
              "reneging_individual.data_records[len(reneging_individual.data_records) - 1].destination == next_node.id_number"),
             ("C13:the-reneger-is-one-of-the-customers-whose-patience-ended", "old(reneging_individual in as_list(self.next_individual, 'Any'))"),
+            ("C13+C14:a-reneging-customer-is-handed-over-as-not-completed", "arg_completed is False"),
+            ("C10+C13:the-reneger-moves-on-with-a-clean-slate",
+             "reneging_individual.service_time is False and reneging_individual.service_start_date is False and reneging_individual.service_end_date is False"),
         ]},
         expect_calls={"accept": 1, "change_state_renege": 1, "release_blocked_individual": 1},
         props=["C01", "C02", "C03", "C07", "C09", "C13", "C17"])
